@@ -145,6 +145,20 @@ def gen_cases(tier, rng):
         f[2] = rng.choice(tc.STATES)
         f[3] = rng.choice(["~", tc.hx("script"), tc.hx("title"), tc.hx("a")])
         cases.append(("\t".join(f), "soup-state"))
+    # the same algorithm must come out however the text arrives (the specification engine sees the flattened text):
+    # CR / LF / run / LF around a chunk boundary in every bulk-read state, boundary inputs one character at a time,
+    # soup under random partitions
+    for line in tc.crlf_run_cover():
+        s = tc.fields(line)["chunks"][0]
+        for part in tc.partitions2(s)[1:-1]:
+            cases.append((tc.with_chunks(line, part), "chunked"))
+    for s in BOUNDARY_INPUTS:
+        if s:
+            cases.append((tc.case(tc.singletons(s), pol=tc.RAW_POL), "chunked"))
+    for line in tc.random_soup(rng, 500 if tier == "quick" else 20000):
+        s = tc.fields(line)["chunks"][0]
+        if len(s) > 1:
+            cases.append((tc.with_chunks(line, tc.random_partition(rng, s)), "chunked"))
     return cases
 
 
